@@ -127,13 +127,29 @@ class NameIndex(Slice):
         while not ap.data:
             ap = RA.gen_abs(rng, n_max=2)
         ap.items = []
+        if rng.random() < 0.2:
+            # a LONG variable: element offsets cross the 12-bit immediate boundaries (2047/2048, 4095/4096)
+            kind = rng.choice(["byte", "half", "word", "zero"])
+            esz = {"byte": 1, "half": 2, "word": 4, "zero": 4}[kind]
+            nel_big = (rng.choice([2049, 2100, 4097, 4200]) + esz - 1) // esz + rng.randrange(0, 3)
+            lim = {"byte": 256, "half": 65536, "word": 2 ** 32}.get(kind, 0)
+            payload = nel_big * esz if kind == "zero" else [(7 * i + 3) % lim for i in range(nel_big)]
+            ap.data.insert(rng.randrange(0, len(ap.data) + 1), ("big_" + kind, kind, payload))
         table, mem = RA.ref_layout(ap)
         findings, cl = [], set()
         order = rng.choice(["data-first", "text-first"])
         for name, kind, payload in ap.data:
             nel = len(payload) if kind in ("byte", "half", "word") else (len(payload) + 1 if kind == "string" else payload)
             base, size = table[name]
-            for idx in [None] + list(range(nel)):
+            idxs = list(range(nel))
+            if nel > 40:
+                marks = {0, 1, nel - 1, nel - 2}
+                for boff in (2047, 2048, 2049, 4095, 4096, 4097):
+                    for d in (-1, 0, 1):
+                        marks.add(boff // size + d)
+                idxs = sorted(i for i in marks if 0 <= i < nel) + [rng.randrange(nel) for _ in range(4)]
+                cl.add("long")
+            for idx in [None] + idxs:
                 ld = {"byte": "lbu", "half": "lhu", "word": "lw", "string": "lbu", "zero": "lw"}[kind]
                 ref = name + ("" if idx is None else f"[{idx}]")
                 body = [f"la x5, {ref}", f"{ld} x6, {ref}", f"li x8, 77", f"s{'b' if size == 1 else ('h' if size == 2 else 'w')} x8, {ref}, x9", f"{ld} x10, {ref}"]
@@ -169,7 +185,7 @@ class NameIndex(Slice):
         return "indexed" in classes
 
     def required_classes(self, tier):
-        return ["kind:byte", "kind:half", "kind:word", "kind:string", "kind:zero", "indexed"]
+        return ["kind:byte", "kind:half", "kind:word", "kind:string", "kind:zero", "indexed", "long"]
 
 
 HELP_FILE = "/repo/webgui/src/components/riscv/RiscvHelp.vue"
